@@ -971,12 +971,16 @@ SERVES = {
 TIE = {
     'C01': [('SrcTieKernel', 'src_C01_')],
     'C02': [('SrcTieKernel', 'src_C01_'), ('SrcTieKernel', 'src_C14_apply'), ('SrcTieKernel', 'src_C02_'), ('E2E', 'block_transparent'),
-            ('E2ELine', 'whole_image_gain_recovers'), ('E2ELine', 'whole_image_gain_offset_recovers')],
-    'C03': [('E2E', 'block_transparent'), ('E2EMask', 'whole_image_'), ('E2EMask', 'block_mask_eq_whole')],
+            ('E2ELine', 'whole_image_gain_recovers'), ('E2ELine', 'whole_image_gain_offset_recovers'),
+            ('E2EWide', 'whole_image_gain_'), ('E2EWide', 'cubic_weights_sum_one'), ('E2EWide', 'bspline_weights_')],
+    'C03': [('E2E', 'block_transparent'), ('E2EMask', 'whole_image_'), ('E2EMask', 'block_mask_eq_whole'),
+            ('E2EWide', 'wide_valid_iff_nearest'), ('E2EWide', 'wide_mask_eq_nearest'), ('E2EWide', 'whole_image_no_lost_pixels_wide'),
+            ('E2EWide', 'block_mask_eq_whole_wide')],
     'C15': [('BandInfo', 'bandInfo_')],
-    'C07': [('SrcTieKernel', 'src_C01_'), ('E2ELine', 'whole_image_scale')], 'C14': [('SrcTieKernel', 'src_C14_'), ('SrcTieGeom', 'src_C14_')],
+    'C07': [('SrcTieKernel', 'src_C01_'), ('E2ELine', 'whole_image_scale'), ('E2EWide', 'whole_image_scale_wide')], 'C14': [('SrcTieKernel', 'src_C14_'), ('SrcTieGeom', 'src_C14_')],
     'C11': [('SrcTieStats', 'src_C11_'), ('E2ECompare', 'compare_'), ('SrcTieKernel', 'src_C02_resampling')], 'C12': [('SrcTieStats', 'src_C12_')], 'C05': [('SrcTieGeom', 'src_C05_'), ('SrcTieGeom', 'src_C06_block'), ('E2E', 'block_transparent'), ('E2E', 'partitions_agree'),
-            ('E2ESrc', 'block_transparent_src_grid'), ('E2ESrc', 'partitions_agree_src_grid'), ('E2ESrc', 'correctedSrcGrid_eq_on')],
+            ('E2ESrc', 'block_transparent_src_grid'), ('E2ESrc', 'partitions_agree_src_grid'), ('E2ESrc', 'correctedSrcGrid_eq_on'),
+            ('E2EWide', 'block_transparent_wide'), ('E2EWide', 'block_mask_eq_whole_wide')],
     'C06': [('SrcTieGeom', 'src_C06_')], 'C16': [('SrcTieGeom', 'src_C16_')], 'C18': [('SrcTieGeom', 'src_C18_')],
     'C13': [('SrcTieGeom', 'src_C13_')], 'C08': [('SrcTieGeom', 'src_C08_')],
     'C17': [('SrcTieGeom', 'src_C17_'), ('E2EPartial', 'partial_mask_'), ('E2EPartialDef', 'partial_valid_'),
